@@ -917,3 +917,61 @@ def c11(ctx):
                      "misuse), are outside the property", "bindnode builders do not implement Reset (documented TODO): "
                      "those steps are skipped"],
         exhaustive=True)
+
+
+# --------------------------------------------------------------------------- totality
+def sd_cfg(dmode):
+    return """SPECIFICATION Spec
+CONSTANTS
+  Mode = "plain"
+  SelDepth = 1
+  Shard = 0
+  NShards = 1
+  Sample = 0
+  DMode = "%s"
+INVARIANTS Emit
+CHECK_DEADLOCK FALSE
+""" % dmode
+
+
+@prop("C10")
+def c10(ctx):
+    quick = ctx.tier == "quick"
+    # (a) dag-cbor: the decoder machine with small depth limits predicts the verdict (depth_exceeded included)
+    for md in (1, 2):
+        f = os.path.join(ctx.scratch, "dec-d%d.ndjson" % md)
+        ctx.tlc("DagCborDec", dec_cfg("explore", free=2 if quick else 3, alphabet="full", seeds="deep", maxdepth=md),
+                capture=f, workers=8, timeout=2400)
+        args = ["cbordec", "-in", f, "-maxdepth", str(md), "-depthonly"]
+        ctx.absorb(ctx.vh_run(args), args, label="cbordec/maxdepth%d" % md)
+    # (b) dag-cbor under the whole configuration matrix: no panic, terminates, depth / prealloc / allocation bounded
+    f = os.path.join(ctx.scratch, "dec-short.ndjson")
+    ctx.tlc("DagCborDec", dec_cfg("explore", free=3, alphabet="small" if quick else "full"), capture=f, workers=8, timeout=2400)
+    args = ["total", "-mode", "cbor", "-in", f, "-cfgevery", "11" if quick else "3"]
+    ctx.absorb(ctx.vh_run(args, timeout=3000), args, label="total/cbor")
+    # (c) dag-json, json, cbor, raw into generic and typed assemblers: totality on mutants and hostile inputs
+    args = ["total", "-mode", "other", "-seed", str(ctx.seed)]
+    ctx.absorb(ctx.vh_run(args, timeout=3000), args, label="total/other")
+    # (d) selector compiler and the walk of whatever compiles
+    for dmode in ("wellformed", "extreme", "malformed"):
+        f = os.path.join(ctx.scratch, "sd-%s.ndjson" % dmode)
+        ctx.tlc("SelectorDmt", sd_cfg(dmode), capture=f, workers=4, timeout=2400)
+        args = ["total", "-mode", "selectors", "-in", f]
+        ctx.absorb(ctx.vh_run(args, timeout=3000), args, label="total/selectors-" + dmode)
+    return ctx.finish(
+        "model_checking",
+        rule="(a) every byte string of the DagCborDec exploration under MaxDepth 1 and 2 with the verdict (depth_exceeded "
+             "included) of the specification's decoder machine; (b) the same inputs plus hostile ones (heads claiming 2^16 .. "
+             "2^63-1 elements or bytes with nothing behind them, nested up to 200 levels; nesting at MaxDepth-1 / MaxDepth / "
+             "MaxDepth+1 for every limit) under a rotating sample of the 300-entry configuration matrix (depth limit x "
+             "allocation budget x preallocation cap x strict/relaxed x links x stop-at-end), hostile inputs under ALL of "
+             "them: no panic, result within 20 s, nesting reached (counting assembler wrapper) <= MaxDepth, size hints <= "
+             "preallocation cap, bytes allocated (MemStats, GC off) <= 256*budget + 256*len + 1MiB; (c) dag-json, json, "
+             "cbor and raw decoders on every truncation / bit flip / substitution / random multi-point mutant of JSON seeds "
+             "and on the hostile CBOR inputs, into generic and typed (bindnode) assemblers; (d) the selector compiler on "
+             "every well-shaped selector (verdict of Selector!Compiles), on the same with extreme integers and on every "
+             "local malformation of the trees, then the walk of whatever compiled over 4 graphs; path parsing is covered by "
+             "C14; non-trivial = every case; distinct = distinct (input, configuration)",
+        assumptions=["'terminates' is decided as 'within the deadline'; allocation is a measurement with constants fixed in "
+                     "advance, not a proof"],
+        exhaustive=False)
